@@ -4,10 +4,10 @@ import pk, src
 from common import jhash, first_diff
 from pkgrun import *
 
-PROF = profile(p_table=0.3, p_span=0.3, p_vmerge=0.3, p_rpr=0.6, p_style=0.4, p_list=0.35, p_comments=0.6, p_core=0.7, p_textbox=0.06)
+PROF = profile(p_table=0.3, p_span=0.3, p_vmerge=0.3, p_rpr=0.6, p_style=0.4, p_list=0.35, p_comments=0.9, p_comment_marker=0.12, p_core=0.7, p_textbox=0.06)
 RULE = ('packages from the union of the nesting / table / formatting profiles; all pairs of option settings: html on vs off (same nesting '
         'skeleton, paragraph count, lineage, styles, list positions, images, core properties, number of comments), duplicate_merged_cells on '
-        'vs off (records that are not copies carry the same runs in the same order; no merged cell at all => identical output), image folder '
+        'vs off (records that are not copies carry the same runs in the same order; no merged cell at all => identical output; ragged tables with gridSpan and vMerge in any combination, cells holding paragraphs only: same cells per row and every non-copy record at the same address), image folder '
         'given vs not (identical returned values); relations evaluated on the implementation and on the model; non-trivial = has a table '
         'and formatted runs; distinct by archive hash')
 
@@ -100,10 +100,71 @@ def one(ctx, data, meta=None):
     return good
 
 
+def ragged_table(rng):
+    """a table whose rows need not span the same number of columns (grid gaps), cells holding paragraphs only,
+    with gridSpan and vMerge in any combination (also both on one cell)"""
+    from gen.probes import docx, p, r
+    tok = [0]; out = '<w:tbl><w:tblPr/><w:tblGrid><w:gridCol w:w="1"/></w:tblGrid>'
+    for _ in range(rng.randint(2, 4)):
+        out += '<w:tr>' + rng.choice(['', '', '<w:trPr><w:gridBefore w:val="1"/></w:trPr>', '<w:trPr><w:gridAfter w:val="1"/></w:trPr>'])
+        for _ in range(rng.randint(1, 4)):
+            pr = ''
+            if rng.random() < 0.35: pr += f'<w:gridSpan w:val="{rng.randint(2, 3)}"/>'
+            vm = rng.choice(['', '', '<w:vMerge w:val="restart"/>', '<w:vMerge/>', '<w:vMerge w:val="continue"/>'])
+            pr += vm
+            if vm and 'restart' not in vm: body = '<w:p/>'
+            else:
+                body = ''
+                for _ in range(rng.randint(1, 2)):
+                    tok[0] += 1; body += p(r(f'«{tok[0]}»c'))
+            out += f'<w:tc><w:tcPr>{pr}</w:tcPr>{body}</w:tc>'
+        out += '</w:tr>'
+    out += '</w:tbl>'
+    return docx(p(r('«9001»before')) + out + p(r('«9002»after')))
+
+
+def one_ragged(ctx, data):
+    """cells hold paragraphs only: switching duplicate_merged_cells must not move any cell that is not a copy"""
+    ctx.evaluations += 1; good = True
+    for html in (False, True):
+        obs = {d: pk.both(ctx.drv, data, html, d, want=['pars']) for d in (True, False)}
+        for who, label in ((0, 'implementation'), (1, 'model')):
+            a, b = obs[True][who].get('body_pars'), obs[False][who].get('body_pars')
+            if not a or not b or 'ok' not in a or 'ok' not in b:
+                if who == 0: ctx.skipped_raises += 1
+                continue
+            def where(v):
+                out = {}
+                for ti, t in enumerate(v):
+                    for ri, rw in enumerate(t):
+                        for ci, c in enumerate(rw):
+                            for x in c:
+                                if x.get('elem'): out[tuple(x['elem'])] = ((ti, ri, ci), x['runs'])
+                return out
+            sa, sb = [[len(rw) for rw in t] for t in a['ok']], [[len(rw) for rw in t] for t in b['ok']]
+            wa, wb = where(a['ok']), where(b['ok'])
+            bad = None
+            if sa != sb: bad = {'cells_per_row_dup_true': sa, 'cells_per_row_dup_false': sb}
+            else:
+                for e, v in wa.items():
+                    if e in wb and wb[e] != v: bad = {'element': e, 'dup_true': v, 'dup_false': wb[e]}
+            if bad:
+                case = case_payload(data, html=html, pair='duplicate_merged_cells on vs off', kind='ragged-table')
+                if who == 0: ctx.fail('switching duplicate_merged_cells moves or changes a cell that is not covered by a merge', case, bad)
+                else: ctx.diff('relation duplicate-invariance (ragged table) holds on the model', case, 'holds?', str(bad)[:300])
+                good = False
+    if good: ctx.validated += 1
+    ctx.count('ragged-table')
+    return good
+
+
 def run(ctx):
     from gen.probes import probes
     for name, data in probes('C19'):
         ctx.count('probe'); one(ctx, data, {'features': ['probe:' + name, 'table'], 'stats': {'rPr': 2}})
+    import random as _random
+    for k in range(60 if ctx.quick else 5000):
+        one_ragged(ctx, ragged_table(_random.Random(f'C19-ragged-{ctx.seed}-{k}')))
     n = 60 if ctx.quick else 5000
     for pkg, meta, rng in stream(ctx, PROF, n):
         one(ctx, pkg.to_bytes(), meta)
@@ -113,5 +174,6 @@ def run(ctx):
 
 def replay(ctx, rep):
     c = rep.get('case') or (rep.get('first_difference') or {}).get('case')
-    one(ctx, case_data(c), None)
+    if c.get('kind') == 'ragged-table': one_ragged(ctx, case_data(c))
+    else: one(ctx, case_data(c), None)
     ctx.rule = ctx.rule or 'replay of one stored case'
